@@ -346,6 +346,7 @@ func (g *gen) families12() {
 	g.signatureFamily()
 	g.foreignFieldFamily()
 	g.nameFamily()
+	g.contextFamily()
 	g.metadataFamily()
 	// U. byte-level single-fault spaces of small weight-only files, exhaustively
 	for _, b := range weightOnly {
@@ -579,6 +580,57 @@ func (g *gen) nameFamily() {
 					data, _ := proto.MarshalOptions{Deterministic: true}.Marshal(mp)
 					g.run(&Case{Family: "initializer-names", Base: fmt.Sprintf("group %d %s raw=%v rot=%d", gi, dt, raw, rot), Reader: "bytes", ZipFail: -1, Data: data}, true)
 				}
+			}
+		}
+	}
+}
+
+// contextFamily: a well-formed weight in a graph that gives a loader REASONS to touch it after decoding: a node that
+// also consumes a graph input declared with the other floating precision; quantization annotations that name it, or
+// name one-element tensors as its scale and zero point; a training_info entry that would update it.
+func (g *gen) contextFamily() {
+	r := rng.New(rng.Mix(g.cfg.Seed, 0xc0c0))
+	for _, wdt := range []val.DT{val.Float32, val.Float64, val.Int64, val.Uint8, val.Int8} {
+		for _, raw := range []bool{true, false} {
+			for variant := 0; variant < 8; variant++ {
+				if !g.mine() || g.stop {
+					continue
+				}
+				w := GenVal(r, wdt, []int{2, 3})
+				if wdt == val.Float64 {
+					w.Bits[0], w.Bits[1] = math.Float64bits(0.1), math.Float64bits(1e-60)
+				}
+				m := &mb.Model{Opset: 13, Inits: []mb.Init{{Name: "W", V: w, Raw: raw}}, Outputs: []mb.IO{{Name: "W", NoShape: true}}}
+				note := ""
+				switch variant {
+				case 0, 1, 2:
+					// x declared FLOAT / DOUBLE / INT32 meets W in one node
+					xdt := []val.DT{val.Float32, val.Float64, val.Int32}[variant]
+					m.Inputs = []mb.IO{{Name: "x", DT: xdt, Shape: []int64{0, 3}}}
+					m.Nodes = []mb.Node{{Op: []string{"Add", "Mul", "MatMul"}[variant], In: []string{"x", "W"}, Out: []string{"y"}}}
+					m.Outputs = append(m.Outputs, mb.IO{Name: "y", NoShape: true})
+					note = fmt.Sprintf("consumed with input declared %s", xdt)
+				case 3, 4:
+					// quantization annotation naming W, with one-element scale / zero point initializers of rank 1 and 2
+					sh := [][]int{{1}, {1, 1}}[variant-3]
+					m.Inits = append(m.Inits, mb.Init{Name: "W_scale", V: f32(sh, 0.5), Raw: raw}, mb.Init{Name: "W_zero_point", V: GenVal(r, wdt, sh), Raw: !raw})
+					m.Outputs = append(m.Outputs, mb.IO{Name: "W_scale", NoShape: true}, mb.IO{Name: "W_zero_point", NoShape: true})
+					m.Quant = []mb.Quant{{Tensor: "W", Scale: "W_scale", ZeroPoint: "W_zero_point"}}
+					note = fmt.Sprintf("quantization annotation, parameters of shape %v", sh)
+				case 5:
+					m.Quant = []mb.Quant{{Tensor: "W", Scale: "W", ZeroPoint: "W"}, {Tensor: "nothing", Scale: "W"}}
+					note = "quantization annotation naming the weight as its own scale"
+				case 6:
+					if wdt != val.Float32 {
+						continue
+					}
+					m.Training = []string{"W"}
+					note = "training_info with an update binding for the weight"
+				default:
+					m.Functions = []mb.Function{{Name: "W", Body: []string{"Relu"}}}
+					note = "a model-local function named like the weight"
+				}
+				g.run(&Case{Family: "weight-in-context", Base: fmt.Sprintf("%s raw=%v %s", wdt, raw, note), Reader: "bytes", ZipFail: -1, Data: m.Bytes()}, true)
 			}
 		}
 	}
